@@ -233,7 +233,7 @@ type Prover struct {
 	linMemo    map[ssa.Value]*Lin
 	ranges     map[string][2]float64
 	assume     []Lin
-	nnAssume   map[string]bool // value keys assumed non-nil (contracts)
+	nnAssume   map[string]bool   // value keys assumed non-nil (contracts)
 	lenBusy    map[*ssa.Phi]bool // phis whose length is being computed (cycle guard)
 	keyMemo    map[ssa.Value]string
 	inl        int
